@@ -8,6 +8,7 @@ import (
 	"encoding/json"
 	"errors"
 	"fmt"
+	"github.com/ozontech/seq-db/logger"
 	"io"
 	"net/http"
 	"net/http/httptest"
@@ -38,19 +39,19 @@ type C10Line struct {
 
 // C10Case is one explicit run.
 type C10Case struct {
-	Property    string    `json:"property"`
-	Seed        uint64    `json:"seed"`
-	Lines       []C10Line `json:"ops"`
-	NoFinalNL   bool      `json:"no_final_newline,omitempty"`
-	TruncateAt  int       `json:"truncate_at,omitempty"` // >0: the body ends (EOF) after that many bytes
-	ErrorAt     int       `json:"error_at,omitempty"`    // >0: the body reader fails after that many bytes
-	Gzip        bool      `json:"gzip,omitempty"`
-	MaxDocSize  int       `json:"max_doc_size"`
-	DriftMs     int64     `json:"drift_ms"`
-	FutureMs    int64     `json:"future_drift_ms"`
-	StoreFails  bool      `json:"store_fails,omitempty"`
-	ClockMs     int64     `json:"clock_ms"` // simulated time before the request
-	ChunkSeeds  []uint64  `json:"chunk_seeds"` // one delivery of the same body per seed (0 = whole body at once, 1 = byte by byte)
+	Property   string    `json:"property"`
+	Seed       uint64    `json:"seed"`
+	Lines      []C10Line `json:"ops"`
+	NoFinalNL  bool      `json:"no_final_newline,omitempty"`
+	TruncateAt int       `json:"truncate_at,omitempty"` // >0: the body ends (EOF) after that many bytes
+	ErrorAt    int       `json:"error_at,omitempty"`    // >0: the body reader fails after that many bytes
+	Gzip       bool      `json:"gzip,omitempty"`
+	MaxDocSize int       `json:"max_doc_size"`
+	DriftMs    int64     `json:"drift_ms"`
+	FutureMs   int64     `json:"future_drift_ms"`
+	StoreFails bool      `json:"store_fails,omitempty"`
+	ClockMs    int64     `json:"clock_ms"`    // simulated time before the request
+	ChunkSeeds []uint64  `json:"chunk_seeds"` // one delivery of the same body per seed (0 = whole body at once, 1 = byte by byte)
 	// concurrent phase: Par requests (the same lines, each document marked with its request number)
 	// sent at once to one handler/ingestor, optionally after a request whose store call failed
 	// sequential phase on one long-lived ingestor (as in production): the clock advances by GapMs[i]
@@ -60,10 +61,10 @@ type C10Case struct {
 	Prelude        string  `json:"prelude,omitempty"`
 	SharedIngestor bool    `json:"shared_ingestor,omitempty"`
 	GapMs          []int64 `json:"gap_ms,omitempty"`
-	Par          int     `json:"par,omitempty"`
-	ParFailFirst bool    `json:"par_fail_first,omitempty"`
-	PSync        float64 `json:"p_sync,omitempty"`
-	Schedule     []int   `json:"schedule,omitempty"`
+	Par            int     `json:"par,omitempty"`
+	ParFailFirst   bool    `json:"par_fail_first,omitempty"`
+	PSync          float64 `json:"p_sync,omitempty"`
+	Schedule       []int   `json:"schedule,omitempty"`
 }
 
 type storedDoc struct {
@@ -330,6 +331,7 @@ var c10Mapping = seq.Mapping{
 
 // RunC10 executes one case: the same body is delivered once per chunk seed.
 func RunC10(t *testing.T, c *C10Case) *RunResult {
+	logger.ResetSink()
 	res := &RunResult{Seed: c.Seed, Fired: map[string]int{}, Probes: map[string]int{}}
 	var log []string
 	violate := func(clause, f string, a ...any) {
@@ -514,6 +516,7 @@ func RunC10(t *testing.T, c *C10Case) *RunResult {
 	}
 	res.Hash = fmt.Sprintf("%016x", verifsim.HashStr(shape))
 	res.Trace = log
+	logProbes(res)
 	switch {
 	case len(s.Failures) > 0:
 		res.Outcome, res.Infra = "infra", fmt.Sprint(s.Failures)
